@@ -69,6 +69,8 @@ struct Options {
     std::vector<int> replay_choices;
     bool keep_choices = false;   // record the choice log (always on in replay)
     size_t stack_bytes = 1u << 20;
+    bool inline_single = false;  // nranks == 1 only: run the rank on the caller's stack without context switches (used by the
+                                 // TSan build, where the OpenMP region runs on real threads and fibers would need extra annotations)
 };
 
 struct Stats {
@@ -215,6 +217,7 @@ private:
     uint64_t gseq_ = 0, reqid_ = 0;
     double now_ = 0;
     bool aborting_ = false;
+    bool inline_mode_ = false;
     bool verdict_set_ = false;
     std::string verdict_, detail_;
     int running_ = -1;
